@@ -36,9 +36,9 @@ func DefaultComparePreRelease[T1, T2 constraint.ParserInput](a T1, b T2) int {
 
 func comparePreRelease[T1, T2 constraint.ParserInput](shorter T1, longer T2) int {
 	s, l := string(shorter), string(longer)
-	longerRunes := []rune(l)
-	for i, sr := range s {
-		if lr := longerRunes[i]; sr != lr {
+	// compare byte by byte: indexing the runes of longer with byte offsets of shorter panics on non-ASCII input
+	for i := 0; i < len(s); i++ {
+		if s[i] != l[i] {
 			return comparePreReleaseSuffix(s[i:], l[i:])
 		}
 	}
